@@ -65,9 +65,21 @@ pub fn check(spec: &FrameSpec, st: &mut Stats) -> Result<(), Violation> {
     // constructor is a pure function of its arguments, nothing may leak into the next call
     {
         let mut sib = spec.clone();
-        sib.cfg.full_range = !spec.cfg.full_range;
-        if !spec.u8_storage {
-            sib.cfg.bit_depth = 16;
+        let kind = spec.fill_seed % 3;
+        if kind != 1 {
+            sib.cfg.full_range = !spec.cfg.full_range;
+            if !spec.u8_storage {
+                sib.cfg.bit_depth = 16;
+            }
+        }
+        if kind != 0 {
+            // ... or another horizontal subsampling, with chroma planes to match (everything else equal)
+            let ssx = if spec.cfg.subsampling_x == 0 { 1 } else { 0 };
+            sib.cfg.subsampling_x = ssx;
+            for i in 1..3 {
+                sib.planes[i].w = spec.planes[0].w >> ssx;
+                sib.planes[i].xdec = ssx as usize;
+            }
         }
         sib.bad = None;
         let _ = catch(|| if sib.u8_storage { construct::<u8>(&sib).map(|_| ()) } else { construct::<u16>(&sib).map(|_| ()) });
